@@ -223,6 +223,27 @@ def two_way_large_cases(draw):
     return case
 
 
+@st.composite
+def three_way_large_cases(draw):
+    """Three bins, 11-13 items: beyond the exhaustive envelope, with ground truth from the two-dimensional subset-sum table."""
+    alg = draw(st.sampled_from(["ckk", "snp", "snp", "rnp", "cg", "cg"]))
+    n = draw(st.integers(11, 12 if alg == "ckk" else 13))
+    hi = draw(st.sampled_from([20, 60, 60, 200, 1000]))
+    values = S.splitmix(draw(st.integers(0, 2 ** 40)), n, 1, hi)
+    case = {"alg": alg, "values": values, "numbins": 3, "pres": "list", "nseed": 0, "profile": f"3way-uniform-{hi}"}
+    if alg == "cg":
+        case["opts"] = {"objective": draw(st.sampled_from(S.CG_OBJECTIVES)), "switches": draw(st.sampled_from([[1, 1, 0, 1], [1, 1, 1, 1], [1, 0, 0, 1]]))}
+    if draw(st.integers(0, 2)) == 0:
+        case["out"] = "Sums"
+    return case
+
+
+def valid_three_way(case):
+    v = case.get("values")
+    return (case.get("numbins") == 3 and isinstance(v, list) and 1 <= len(v) <= 13 and all(isinstance(x, int) and x >= 0 for x in v)
+            and sum(v) <= 40000 and case.get("alg") in ("ckk", "snp", "rnp", "cg"))
+
+
 def valid_two_way(case):
     v = case.get("values")
     return (case.get("numbins") == 2 and isinstance(v, list) and 1 <= len(v) <= 16 and all(isinstance(x, int) and x >= 0 for x in v)
@@ -287,6 +308,29 @@ def rnp_five_cases(draw):
     return {"alg": "rnp", "values": S.splitmix(seed >> 8, n, 1, hi), "numbins": 5, "pres": "list", "nseed": 0, "profile": f"rnp-5-bins-uniform-{hi}"}
 
 
+@st.composite
+def five_six_bins_cases(draw):
+    """snp / ckk / complete greedy with 5 bins x 9-10 items and 6 bins x 8-9 items (complete greedy one item fewer) on evenly spread
+    values: the largest shapes the exhaustive oracle still decides; mostly a thorough-tier leg."""
+    seed = draw(st.integers(0, 2 ** 48))
+    alg = ["snp", "ckk", "cg"][seed % 3]
+    k = [5, 5, 6][(seed >> 2) % 3]
+    n = (8 + (seed >> 4) % 2) if k == 6 else (9 + (seed >> 4) % 2)
+    if alg == "cg":
+        n -= 1
+    hi = [20, 60, 200, 1000][(seed >> 6) % 4]
+    case = {"alg": alg, "values": S.splitmix(seed >> 10, n, 1, hi), "numbins": k, "pres": "list", "nseed": 0, "profile": f"{k}-bins-uniform-{hi}"}
+    if alg == "cg":
+        case["opts"] = {"objective": ["diff", "minmax", "maxmin"][(seed >> 8) % 3]}
+    return case
+
+
+def valid_five_six(case):
+    v = case.get("values")
+    return (case.get("alg") in ("snp", "ckk", "cg") and case.get("numbins") in (2, 3, 4, 5, 6) and isinstance(v, list) and 1 <= len(v) <= 10
+            and all(isinstance(x, int) and x >= 0 for x in v))
+
+
 def valid_rnp_five(case):
     v = case.get("values")
     return (case.get("alg") == "rnp" and case.get("numbins") in (3, 4, 5) and isinstance(v, list) and 1 <= len(v) <= 10
@@ -337,6 +381,9 @@ def legs(tier):
             "hypothesis: rnp with exactly 5 bins on 9-10 evenly spread items (values up to 20 ... 1000): the one shape in which its odd and "
             "its even step are nested; same oracle and rule", strategy=rnp_five_cases(), n_quick=4000, n_thorough=60000,
             valid=valid_rnp_five, floor=0.03, shards=16),
+        Leg("five-six-bins", evaluate,
+            "hypothesis: snp / ckk / complete greedy (three objectives) with 5 bins x 9-10 items and 6 bins x 8-9 items, values up to 20 ... 1000; "
+            "same oracle and rule", strategy=five_six_bins_cases(), n_quick=480, n_thorough=40000, valid=valid_five_six, floor=0.03, shards=16),
         Leg("dp-large-layers", evaluate,
             "hypothesis: dp with 3 bins x 9-10 items and 4 bins x 7-8 items (layers of more than a thousand states), objectives max-min, "
             "difference, k-largest, k-smallest, min-max; two thirds of the inputs selected (by the oracle, out of 80 candidates) as the one "
@@ -346,6 +393,10 @@ def legs(tier):
             "hypothesis: two bins, 11-16 items (complete greedy <= 14), values 1..200 / 1..1000 / near-equal large / planted: beyond the "
             "exhaustive envelope, with ground truth from a subset-sum DP (bitset); ckk, snp, rnp, complete greedy, dp and cbldm (default bound); "
             "same non-triviality rule", strategy=two_way_large_cases(), n_quick=500, n_thorough=20000, valid=valid_two_way, floor=0.3),
+        Leg("three-way-large", evaluate,
+            "hypothesis: three bins, 11-13 items (ckk <= 12), values up to 20 ... 1000: beyond the exhaustive envelope, with ground truth from "
+            "a two-dimensional subset-sum table; ckk, snp, rnp, complete greedy (three objectives); same non-triviality rule",
+            strategy=three_way_large_cases(), n_quick=1500, n_thorough=40000, valid=valid_three_way, floor=0.3, shards=16),
         Leg("known-rnp>=6", evaluate, "rnp with 6-7 bins: the region of the recorded known finding",
             strategy=rnp_known_region(), n_quick=40, n_thorough=400, shards=1, valid=cases.valid_partition_case),
         fuzz_target.fuzz_leg(PROP, 60000, evaluate, valid_deep),
